@@ -99,7 +99,13 @@ def boolop_constant_operand(case):
     return False
 
 
+def eq_singleton(case):
+    """F-C01-07: '== True/False' or '!= True/False' where the other operand need not be a bool."""
+    return bool(re.search(r"[!=]=\s*(True|False)\b|\b(True|False)\s*[!=]=", _src(case)))
+
+
 PREDICATES.update({
+    "eq_singleton": eq_singleton,
     "prints_defaultdict": prints_defaultdict, "duplicate_dict_key": duplicate_dict_key, "symbolic_range_sum": symbolic_range_sum,
     "double_zip_star": double_zip_star, "zip_underscore": zip_underscore, "boolop_constant_operand": boolop_constant_operand,
 })
